@@ -224,3 +224,98 @@ Print Assumptions C06_last_event.
 Print Assumptions C06_events_of_task.
 Print Assumptions C06_frame.
 Print Assumptions C06_state_invariant.
+
+(* ---- C06 seen through the whole pipeline: the monitor `mon_C06p` of the correspondence harness ----
+   `mon_C06p` (Corr/CorrPipeline.v) states on a whole Applier/Destroyer run, where the actuation
+   records come from the real apply / prune tasks: (1) a wait event of an object is Skipped exactly
+   when the last apply / prune result event of the object before it is Failed or Skipped; (2) after a
+   Skipped or timed-out wait event no further wait event of the object occurs, a Successful wait
+   event is never followed by another Successful one and a Pending one never by another Pending one.
+   - `C06_pipeline_monitor`: it holds of every run of the model (Model/Pipeline.v);
+   - `C06_pipeline_final_state`: the reconcile field of every record of the final actuation table
+     is the status of the last wait event of its object in the trace (Pending if there is none) —
+     `C06_last_event` at pipeline level.
+   Hypothesis of both: `locals_nodup sc`, the first clause of WF (Properties/C01.v: an apply set
+   names each object once); `C06_pipeline_monitor_needs_nodup`: a manifest id given twice is
+   reported twice by its wait group and the monitor is false.
+   Remark.  The strict variant `mon_C06p_strict` (= `c06_walk_gen true`; `mon_C06p` is
+   `c06_walk_gen false`, `C06_pipeline_monitor_walk`) also forbids Failed after Failed.  The wait task
+   does send Failed twice in a row when an object of the failed set is seen with a replaced UID while
+   another object is still pending (the failed-set branch of StatusUpdate calls handleChangedUID;
+   compare `C06_witness_failed_then_replaced` above) and in no other way:
+   `C06_pipeline_strict_walk_calm` — the strict walk holds when no status delivery of the wait
+   schedules reports Failed, or none carries a UID (`calm_deliv`); `C06_pipeline_strict_walk_needs_calm`
+   — a well-formed scenario outside `calm_deliv` on which it is false. *)
+From CliUtils Require Import Model.PipelineTypes Model.Pipeline Corr.CorrPipeline Proofs.PipelineBase
+     Proofs.PipelineOrphansRun Proofs.PipelineMonBase Proofs.PipelineMonPack Proofs.PipelineMonC03a
+     Proofs.PipelineMonC06pDefs Proofs.PipelineMonC06p.
+
+Theorem C06_pipeline_monitor : forall sc c0, locals_nodup sc -> mon_C06p sc c0 (run sc c0) = true.
+Proof. exact monitor_C06p. Qed.
+
+Theorem C06_pipeline_monitor_wf : forall sc c0, WF sc c0 -> mon_C06p sc c0 (run sc c0) = true.
+Proof. intros sc c0 W. exact (monitor_C06p sc c0 (WF_locals_nodup sc c0 W)). Qed.
+
+Theorem C06_pipeline_final_state : forall sc c0, locals_nodup sc ->
+  forall j r, lookup Nat.eqb (r_tbl (run_state sc c0)) j = Some r ->
+    r_rec r = rof (last_wait (out_trace (run sc c0)) j).
+Proof. exact C06p_final_state_is_last_wait_event. Qed.
+
+Theorem C06_pipeline_monitor_needs_nodup :
+  exists sc c0, ~ locals_nodup sc /\ mon_C06p sc c0 (run sc c0) = false.
+Proof. exact monitor_C06p_needs_nodup. Qed.
+
+(* remark: the strict walk *)
+Theorem C06_pipeline_monitor_walk : forall sc c0 out,
+  mon_C06p sc c0 out = c06_walk_gen false [] (out_trace out).
+Proof. exact mon_C06p_walk. Qed.
+Theorem C06_pipeline_strict_walk_stronger : forall sc c0 out,
+  mon_C06p_strict sc c0 out = true -> mon_C06p sc c0 out = true.
+Proof. exact mon_C06p_strict_weaker. Qed.
+Theorem C06_pipeline_strict_walk_calm : forall sc c0,
+  locals_nodup sc -> calm_deliv sc -> mon_C06p_strict sc c0 (run sc c0) = true.
+Proof. exact strict_walk_calm. Qed.
+Theorem C06_pipeline_strict_walk_needs_calm :
+  exists sc c0, WF sc c0 /\ mon_C06p_strict sc c0 (run sc c0) = false /\ mon_C06p sc c0 (run sc c0) = true.
+Proof. exact strict_walk_needs_calm. Qed.
+
+(* non-vacuity: the apply of object 0 is rejected, object 1 is applied and becomes Current; the
+   wait group reports 0 Skipped and 1 Pending then Successful; the hypotheses hold, the monitor
+   (and its strict variant) accepts the run, the final records read Skipped and Successful *)
+Example C06_pipeline_nonvacuous :
+  let univ := [mkU KPlain None None; mkU KPlain None None] in
+  let o := mkO false true PMustMatch DNone VSkipInvalid false true true false PropBackground false in
+  let env := mkE [FApply 0] [mkW [mkS 1 SInProgress true 1%N 2%Z; mkS 1 SCurrent true 1%N 2%Z] WTimeout] CNever None in
+  let sc := mkSc univ None [mkL 0 [] false false false 1; mkL 1 [] false false false 1] o env in
+  let c0 := mkCl [] None 1%N in
+  WF sc c0 /\ locals_nodup sc /\ calm_deliv sc /\
+  flat_map (fun it => match it with
+                      | IEv (EApply g i s) => [EApply g i s]
+                      | IEv (EWait g i s) => [EWait g i s]
+                      | _ => [] end) (out_trace (run sc c0)) =
+  [EApply (GApply, 0) 0 AFail; EApply (GApply, 0) 1 AOk;
+   EWait (GWait, 0) 0 WSkipped; EWait (GWait, 0) 1 WPending; EWait (GWait, 0) 1 WOk] /\
+  mon_C06p sc c0 (run sc c0) = true /\ mon_C06p_strict sc c0 (run sc c0) = true /\
+  option_map (@r_rec nat) (lookup Nat.eqb (r_tbl (run_state sc c0)) 0) = Some RSkipped /\
+  option_map (@r_rec nat) (lookup Nat.eqb (r_tbl (run_state sc c0)) 1) = Some RSucceeded.
+Proof.
+  cbv zeta.
+  assert (W : WF (mkSc [mkU KPlain None None; mkU KPlain None None] None
+                       [mkL 0 [] false false false 1; mkL 1 [] false false false 1]
+                       (mkO false true PMustMatch DNone VSkipInvalid false true true false PropBackground false)
+                       (mkE [FApply 0] [mkW [mkS 1 SInProgress true 1%N 2%Z; mkS 1 SCurrent true 1%N 2%Z] WTimeout] CNever None))
+                (mkCl [] None 1%N)) by (apply wf_b_spec; vm_compute; reflexivity).
+  split; [exact W|]. split; [exact (WF_locals_nodup _ _ W)|]. split.
+  - left. intros w d [<-|[]] [<-|[<-|[]]]; discriminate.
+  - vm_compute. repeat split; reflexivity.
+Qed.
+
+Print Assumptions C06_pipeline_monitor.
+Print Assumptions C06_pipeline_monitor_wf.
+Print Assumptions C06_pipeline_final_state.
+Print Assumptions C06_pipeline_monitor_needs_nodup.
+Print Assumptions C06_pipeline_monitor_walk.
+Print Assumptions C06_pipeline_strict_walk_stronger.
+Print Assumptions C06_pipeline_strict_walk_calm.
+Print Assumptions C06_pipeline_strict_walk_needs_calm.
+Print Assumptions C06_pipeline_nonvacuous.
